@@ -71,6 +71,7 @@ STAGES = {
             S("sender-dies", "^TestC01SenderDies$"),
             S("roundtrip", "^TestC01$", quick=250, thorough=4000, shards=(6, 16), timeout=("15m", "90m"))],
     "C02": [S("lag", "^TestC02Lag$"),
+            S("close-queued", "^TestC02CloseQueued$"),
             S("programs", "^TestC02$", quick=1500, thorough=200000, shards=(4, 16))],
     "C03": [S("regress", "^TestC03Regress$|^TestC03Flood$"),
             S("structured", "^TestC03$", quick=1500, thorough=10000, shards=(4, 16)),
